@@ -341,7 +341,7 @@ Definition bmv (i : N) : bool := match bm with Some w => bm_bit w i | None => fa
 Definition dkind_of_key (key : N) : dkind :=
   if key =? 1 then DFull else if key =? 2 then DSuffix else if key =? 3 then DKeyword else DRegex.
 Definition dom_group_holds (key : N) (vals : list string) : bool :=
-  existsb (fun s => domain_holds (dkind_of_key key) s (p_domain pk) (p_regex_hits pk)) vals.
+  existsb (fun s => domain_holds (dkind_of_key key) s (normalise (p_domain pk)) (p_regex_hits pk)) vals.
 (* the interface to C11: bit i of the bitmap is the meaning of the domain set registered for index i *)
 Definition dom_agree (F : builder) : Prop :=
   forall i key vals, In (i, (key, vals)) (b_domsets F) -> bmv i = dom_group_holds key vals.
@@ -1171,7 +1171,7 @@ Definition ex_pk (dport : N) (dom : string) (mac : N) (dst : N) (pn : list N) (d
 
 Lemma C01_nonvacuous_proof :
   wf_program ex_program = true /\
-  decide ex_program (ex_pk 53 "www.example.com" 1 0xffff01020304 (repeat 0 16) 0) = (2, 16, true) /\
+  decide ex_program (ex_pk 53 "WWW.Example.COM." 1 0xffff01020304 (repeat 0 16) 0) = (2, 16, true) /\
   decide ex_program (ex_pk 53 "www.example.com" 0 0xffff0a010203 ([99; 117; 114; 108] ++ repeat 0 12) 8) = (1, 0, true) /\
   decide ex_program (ex_pk 80 "" 0 0xffff01020304 (repeat 0 16) 0) = (0, 0, false) /\
   (exists b, lower_program ex_program = Ok b /\ List.length (b_rules b) = 13%nat).
